@@ -17,8 +17,8 @@ import c07_keys
 
 PID = "C07"
 THEOREMS = ["hab_layout_roundtrip", "ivt_pointers_resolve", "signed_blocks_cover_except_known", "signed_blocks_cover_refuted",
-            "signed_data_is_image_blocks", "csf_offsets_resolve", "cms_obligations_ranges", "ccm_restores_app",
-            "dcd_roundtrip", "xmcd_roundtrip_except_known", "xmcd_roundtrip_refuted"]
+            "cms_obligations_ranges", "csf_offsets_resolve", "ccm_restores_app", "xmcd_roundtrip_except_known",
+            "xmcd_roundtrip_refuted"]
 WORKDIR = os.path.join(vlib.WORK, "C07")
 RUN = os.path.join(WORKDIR, "run")
 ENGINES = {"ANY": 0, "CAAM": 0x1D, "DCP": 0x1B, "SW": 0xFF, "SNVS": 0x1E, "OCOTP": 0x21}
